@@ -138,6 +138,8 @@ class Canon:
                         lit = t[t.index('c"') + 2:]
                         lit = lit[:lit.index('"')]
                         return '"' + re.sub(r'\\00$', '', lit) + '"'
+                    if re.search(r'\[1 x i8\] zeroinitializer', t):
+                        return '""'                    # the empty string literal
                 if cg:
                     return '&' + cg[1] + const_gep_suffix(self.prog, self.fn.mod, cg)
             return v
@@ -344,3 +346,80 @@ def possible_consts(fn, v, via=None, seen=None, facts=None, known=None, truth=No
     if d.op == 'load':
         return {'load'}
     return {'expr:' + d.op}
+
+
+def byte_extent(prog, fn, ptr, access_ty):
+    """(root SSA value, byte offset, size) of the memory an access of type access_ty through `ptr` touches, when the address is the
+    root plus constant member / element / byte offsets; None otherwise.  Used to tell apart stores into different members of
+    one object (x86-64 layout of the IR types)"""
+    from .build import _layout, _split_top
+    structs = fn.mod.__dict__.get('_structs_layout')
+    if structs is None:
+        structs = {}
+        for m_ in [fn.mod] + list(prog.mods):
+            for name, body in m_.types.items():
+                if name not in structs and '{' in body and '}' in body:
+                    structs[name] = _split_top(body[body.index('{') + 1: body.rindex('}')])
+        fn.mod._structs_layout = structs
+    sz = _layout(access_ty, structs)
+    if sz is None:
+        return None
+    off, v, n = 0, ptr, 0
+    while n < 12:
+        n += 1
+        d = fn.defs.get(v)
+        if d is None:
+            break
+        if d.op == 'bitcast':
+            v = d.ops[0]
+            continue
+        if d.op != 'getelementptr':
+            break
+        idx = d.ops[1:]
+        if not all(INT.match(i) for i in idx):
+            return None
+        cur = d.gep_base_ty.strip()
+        e = _layout(cur, structs)
+        if e is None:
+            return None
+        off += int(idx[0]) * e[0]
+        for i in idx[1:]:
+            i = int(i)
+            if cur in structs:
+                o = 0
+                for k_, f_ in enumerate(structs[cur]):
+                    fe = _layout(f_, structs)
+                    if fe is None:
+                        return None
+                    o = (o + fe[1] - 1) // fe[1] * fe[1]
+                    if k_ == i:
+                        break
+                    o += fe[0]
+                else:
+                    return None
+                off += o
+                cur = structs[cur][i].strip()
+            else:
+                am = re.match(r'\[(\d+) x (.*)\]$', cur)
+                if not am:
+                    return None
+                ee = _layout(am.group(2), structs)
+                if ee is None:
+                    return None
+                off += i * ee[0]
+                cur = am.group(2).strip()
+        v = d.ops[0]
+    return v, off, sz[0]
+
+def may_overlap(fn, e1, e2):
+    """two byte extents (byte_extent results, possibly None) may name common memory"""
+    if e1 is None or e2 is None:
+        return True
+    if e1[0] == e2[0]:
+        return not (e1[1] + e1[2] <= e2[1] or e2[1] + e2[2] <= e1[1])
+    # different roots: distinct objects only when one of them is memory allocated in this very function
+    for r in (e1[0], e2[0]):
+        d = fn.defs.get(r)
+        if d is not None and (d.op == 'alloca' or (d.op == 'call' and d.callee in ('@malloc', '@calloc'))):
+            return False
+    return True
